@@ -9,12 +9,6 @@ import MoThreads.Proofs.CompHook2
 namespace MoThreads.Composite
 open MoThreads
 
-/-- no operation, callback or cleanup is in progress -/
-def Quiet (s : State) : Prop := ∀ t, t < NT → s.todo t = []
-
-theorem not_inTodos_of_quiet {s : State} (hq : Quiet s) (a : Act) : ¬ InTodos s a := by
-  rintro ⟨t, ht, hm⟩; rw [hq t ht] at hm; cases hm
-
 /-- No leaked hook: at every quiescent point, a hook of an OrSignal sitting in the callback list of a signal `z`
 belongs to a composite that is alive, untriggered, built on `z` (at that operand position), whose operand list
 is intact and whose own cleanup is registered — i.e. once a composite has been triggered or is no longer
